@@ -2,6 +2,7 @@
 //! its registry metadata in `/// @harness`, `/// @shape`, `/// @aims` doc lines, which tools/hand_registry.py
 //! reads; the unwind bound is the one given in the module's `harnesses!` list.
 pub mod base;
+pub mod c04;
 pub mod c07;
 pub mod c09;
 pub mod c10;
@@ -18,6 +19,7 @@ pub mod c20;
 
 pub fn extend(v: &mut Vec<(&'static str, crate::Body)>) {
     v.extend_from_slice(base::REG);
+    v.extend_from_slice(c04::REG);
     v.extend_from_slice(c07::REG);
     v.extend_from_slice(c09::REG);
     v.extend_from_slice(c10::REG);
